@@ -297,6 +297,21 @@ func c06Run(cs *c06Case, r *gen.Rand) {
 					got, e2 := w.Download("repo", rid, 0, nil)
 					co.RetryOk = e2 == nil && sameFiles(got, cs.Files)
 				}
+			} else if cs.Kind == "commit" {
+				// a retried commit succeeds unless the interrupted one had already terminated the diamond; what it
+				// adds is judged by C12 (a second bundle is the recorded finding), here it must leave everything readable
+				_ = op(w)
+				co.RetryOk = true
+				if bs, e := core.ListBundles("repo", w.Stores()); e == nil {
+					for _, b := range bs {
+						if _, old := orig[b.ID]; !old {
+							got, e2 := w.Download("repo", b.ID, 0, nil)
+							co.RetryOk = co.RetryOk && e2 == nil && c15FilesDigest(got) == c15FilesDigest(cs.merged)
+						}
+					}
+				} else {
+					co.RetryOk = false
+				}
 			} else {
 				if e := op(w); e == nil {
 					l := core.NewLabel(core.LabelDescriptor(model.NewLabelDescriptor(model.LabelName(cs.Name))))
